@@ -378,11 +378,15 @@ def coq_closure(prop_id):
             continue
         seen.add(f)
         src = strip_comments(open(os.path.join(root, f)).read())
-        for m in re.finditer(r"(?:From\s+MJ\s+)?Require\s+(?:Import\s+|Export\s+)?([^.]*(?:\.[A-Za-z0-9_]+)*[^.]*)\.(?:\s|$)", src):
-            for mod in m.group(1).split():
+        # `From MJ Require [Import|Export] A.B C.D.` / `Require Import MJ.A.B.`: the statement ends at a
+        # dot followed by white space; module names contain dots that are not
+        for m in re.finditer(r"(From\s+MJ\s+)?Require\s+(?:Import\s+|Export\s+)?(.*?)\.(?=\s|$)", src, re.S):
+            for mod in m.group(2).split():
                 mod = mod.strip()
                 if mod.startswith("MJ."):
                     mod = mod[3:]
+                elif not m.group(1):
+                    continue
                 cand = mod.replace(".", "/") + ".v"
                 if os.path.exists(os.path.join(root, cand)):
                     todo.append(cand)
